@@ -30,7 +30,9 @@ TRUSTED = ["ast"]
 
 def rule_Y1(ctx: Ctx) -> None:
     f = ctx.index.func(f"{MP}._lattice_maze_to_img")
-    top = [n for n in f.node.body if isinstance(n, ast.If) and "node_values" in X.U(n.test)]
+    top = [n for n in f.node.body if isinstance(n, ast.If) and "node_values" in X.U(n.test)
+           and any(isinstance(s_, (ast.Assign, ast.AnnAssign)) and "connection_list_processed" in X.U(s_.targets[0] if isinstance(s_, ast.Assign) else s_.target)
+                   for s_ in ast.walk(n))]  # located by role: the branch that prepares the processed connection list
     if len(top) != 1:
         ctx.unknown(f, {"branches": len(top)}, "one branch on self.node_values is None")
         return
@@ -135,6 +137,16 @@ def rule_Y2(ctx: Ctx) -> None:
         return N.slice_form(p, {"node_bdry_hack": N.affine(ast.Name(id="H", ctx=ast.Load()))})
 
     stores = [s for s in ast.walk(f.node) if isinstance(s, ast.Assign) and isinstance(s.targets[0], ast.Subscript) and X.U(s.targets[0].value) == "img"]
+    # every write into the image is one of the per-cell stores (block, two strips): nothing repaints the picture afterwards
+    in_cell_loops = set()
+    for lp in loops:
+        if isinstance(lp.target, ast.Name) and lp.target.id in (rv, cv):
+            in_cell_loops |= {id(x) for x in ast.walk(lp)}
+    stray = [st_ for st_ in ast.walk(f.node) if isinstance(st_, (ast.Assign, ast.AugAssign)) and isinstance(st_.targets[0] if isinstance(st_, ast.Assign) else st_.target, ast.Subscript)
+             and X.U((st_.targets[0] if isinstance(st_, ast.Assign) else st_.target).value) == "img" and id(st_) not in in_cell_loops]
+    ctx.judge(f, not stray, {"image_stores_outside_the_cell_loops": [X.U(x)[:80] for x in stray]},
+              "the image is written only by the per-cell stores (cell block, strip below, strip to the right)",
+              "a later masked store repaints pixels by value: cell blocks / strips that happen to carry that value lose it (e.g. a cell value of -1 becomes nan)")
     found = {"node": None, 0: None, 1: None}
     par = X.parents_map(f.node)
     for s in stores:
@@ -238,7 +250,7 @@ def rule_Y4(ctx: Ctx) -> None:
 
 RULES = [
     Rule("C20.Y1", rule_Y1, floor=4, doc="strip polarity in both branches"),
-    Rule("C20.Y2", rule_Y2, floor=5, doc="block/strip layout"),
+    Rule("C20.Y2", rule_Y2, floor=6, doc="block/strip layout"),
     Rule("C20.Y3", rule_Y3, floor=4, doc="axis mapping, every listed cell drawn"),
     Rule("C20.Y4", rule_Y4, floor=3, doc="delegation"),
 ]
@@ -247,3 +259,8 @@ from sa import dims as _dims  # noqa: E402
 
 RULES.append(Rule("C20.AX", _dims.make_rule("C20", "C20.AX"), floor=1,
                   doc="axis-extent agreement: coordinate components are bounded by the extent of their own axis (E13)"))
+
+from sa import exits as _exits  # noqa: E402
+
+RULES.append(Rule("C20.RX", _exits.make_rule("C20", "C20.RX", _exits.SCOPES["C20"]), floor=1,
+                  doc="rejection conditions: the anchored functions refuse inputs only under the conditions confirmed on the pinned tree (E16)"))
